@@ -284,6 +284,21 @@ func init() {
 		s2, err2 := wkt.Marshal(g, wkt.EncodeOptionWithMaxDecimalDigits(2))
 		return obsErr(s, err) + obsErr(s2, err2)
 	})
+	// an encoder value that lives on between calls (used by one caller at a time): a call that failed
+	// part-way leaves nothing behind, so each text equals the one a fresh encoder gives
+	geomCase("encoding/wkt.(*Encoder).Encode", anyGeom, func(g geom.T) string {
+		c17EncMu.Lock()
+		defer c17EncMu.Unlock()
+		bad := geom.NewGeometryCollection().MustPush(geom.NewPointFlat(geom.XY, []float64{7, 8}), geom.NewLineString(geom.NoLayout))
+		_, _ = c17Enc.Encode(bad)
+		s, err := c17Enc.Encode(g)
+		fresh, ferr := wkt.Marshal(g)
+		if s != fresh || (err == nil) != (ferr == nil) {
+			c17EncDrift++
+			return fmt.Sprintf("(carried-over %d %s)", c17EncDrift, s)
+		}
+		return obsErr(s, err)
+	})
 	geomCase("encoding/geojson.Marshal", anyGeom, func(g geom.T) string {
 		b, err := geojson.Marshal(g)
 		b2, err2 := geojson.Marshal(g, geojson.EncodeGeometryWithBBox(), geojson.EncodeGeometryWithMaxDecimalDigits(3))
@@ -935,6 +950,10 @@ func c17SetSRIDs(g geom.T, r *Rng) {
 		}
 	}
 }
+
+var c17Enc = wkt.NewEncoder()
+var c17EncMu sync.Mutex
+var c17EncDrift int
 
 func containsInt(xs []int, k int) bool {
 	for _, x := range xs {
